@@ -199,7 +199,9 @@ def one_connection(pt, ex, origin, host_for_connect, verify_ca, expect_cert_name
     a, b = socket.socketpair()
     ex.work_queue.put((b, ('127.0.0.1', 51000)))
     target = '%s:%d' % (host_for_connect, origin.port)
-    connect = ('CONNECT %s HTTP/1.1\r\nHost: %s\r\n\r\n' % (target, target)).encode()
+    # the Host header of the CONNECT request normally repeats the target; a client may put any name there
+    hh = target if pt.get('host_header', 'same') == 'same' else 'other.test:%d' % origin.port
+    connect = ('CONNECT %s HTTP/1.1\r\nHost: %s\r\n\r\n' % (target, hh)).encode()
     # opted-out tunnels may be entered by a client that sends its ClientHello right behind the CONNECT head
     early = pt['packing'] == 'early_hello' and pt['optout'] not in (False, 'bystander_only')
     try:
